@@ -512,3 +512,41 @@ Fixpoint first_diff (cfg : config) (st : state) (evs : list (event * snapshot)) 
            | Ok (st', d) => if snap_ok st' d sn then first_diff cfg st' rest (i + 1) else i
            end
   end.
+
+(* ------------------------------------------------------------------ *)
+(* synchronous Hyperband: what SynchronousHyperbandScheduler sends to   *)
+(* the searcher (synchronous/hyperband.py _suggest, on_trial_result,    *)
+(* on_trial_error)                                                      *)
+(* ------------------------------------------------------------------ *)
+(* new trial: searcher.register_pending(trial, milestone = level of its slot); a resumed trial registers nothing *)
+Definition sync_on_suggest (s : sstate) (t ms : Z) : res sstate := register_pending s t ms.
+(* on_trial_result of a pending trial running to [ms], previous rung level of its bracket [prev]:
+   if resource > prev_level: searcher.on_trial_result(update = searcher_data == "all" or resource == milestone) *)
+Definition sync_on_result (all mx : bool) (s : sstate) (t r : Z) (v : Q) (ms prev : Z) : sstate :=
+  if prev <? r then
+    if all || (r =? ms) then label s t r (if mx then (1 - v)%Q else v) else s
+  else s.
+Definition sync_on_error (s : sstate) (t : Z) : sstate := evaluation_failed s t.
+
+Inductive sync_ev :=
+| YSuggest (t ms : Z)
+| YResult (t r : Z) (v : Q) (ms prev : Z)
+| YFail (t : Z).
+Definition sync_step (all mx : bool) (s : sstate) (e : sync_ev) : res sstate :=
+  match e with
+  | YSuggest t ms => sync_on_suggest s t ms
+  | YResult t r v ms prev => Ok (sync_on_result all mx s t r v ms prev)
+  | YFail t => Ok (sync_on_error s t)
+  end.
+Definition ssnap_ok (s : sstate) (sn : snapshot) : bool :=
+  let '(o, p, f, _) := sn in
+  same_set obs_entry_eqb (obs s) o && list_eqb key_eqb (pend s) p && list_eqb Z.eqb (failed s) f.
+Fixpoint sync_diff (all mx : bool) (s : sstate) (evs : list (sync_ev * snapshot)) (i : Z) : Z :=
+  match evs with
+  | [] => -1
+  | (e, sn) :: rest =>
+      match sync_step all mx s e with
+      | Error _ => -2 - i
+      | Ok s' => if ssnap_ok s' sn then sync_diff all mx s' rest (i + 1) else i
+      end
+  end.
